@@ -2,6 +2,15 @@
 from gen import gen_functions
 from props._semprop import simple
 
+from common import prove
+
+MODULE = 'Proofs.Props.C14'
+THEOREMS = ['Facto.elabStmts_cons_ok', 'Facto.elabStmts_cons_error', 'Facto.C14_violation_in_loop_rejected']
+
 
 def run(res, tier):
+    proved = prove(res, MODULE, THEOREMS)
     simple(res, tier, gen_functions, 64, 1000, "seeded generator of programs with 1-3 functions (int / Signal parameters, a local that may shadow a caller name, nested calls, int->Signal coercion at call sites) called 1-3 times; the reference elaborator inlines with fresh names and the compiled blueprint must agree with it")
+    if not proved:
+        res.violation({"reason": "a proof obligation of C15 no longer checks", "problems": res.proof_problems,
+                       "log": res.proof_log[-1500:], "obligation": MODULE}, failing_input=False)
